@@ -30,6 +30,13 @@ Keys == {"adminpass", "admin_pass", "password", "admin_password", "auth_token", 
 ASSUME Cardinality(Keys) = 35
 
 Spellings == {"lower", "UPPER", "Capitalised", "digits"}     \* digits: key followed by 1-3 digits
+\* "glued": the key is immediately preceded by other word characters (x_password,
+\* os-token) including the compounds in which two sanitize keys overlap
+\* (new_pass + password = new_password, adminpass + passphrase = adminpassphrase).
+\* The prefix is neutral text; renderings that anchor the key on '<' or '--' do not
+\* support it.
+GluedOK == {"eq", "eq_sp", "eq_dq", "eq_sq", "eq_sp_dq", "json_dq", "dict_sq", "dict_u", "json_tight",
+            "sp_sq", "sp_dq", "argv_flag", "argv_u", "flag"}
 
 \* the supported renderings (k = key as spelled, v = secret)
 Renderings == {"eq",            \* k=v
@@ -88,6 +95,7 @@ SecretsAll == {<<Field("password", "lower", r, s)>> : r \in Renderings, s \in Se
               \cup {<<Field(k, "lower", r, s)>> : k \in {"token", "secret_uuid", "cephmonkey"},
                                                  r \in {"eq", "json_dq", "xml", "opt"}, s \in SecretShapes}
 Secrets == {m \in SecretsAll : OkSecret(m[1].rend, m[1].secret)}
+Glued == {<<Field(k, "glued", r, <<"letter", "digit", "letter">>)>> : k \in Keys, r \in GluedOK}
 InContext == {<<Neutral(a), Field(k, sp, r, <<"letter", "digit">>), Neutral(b)>> :
                  a \in NeutralToks, b \in NeutralToks, k \in {"password", "auth_token", "sslkey", "chapsecret"},
                  sp \in {"lower", "UPPER"}, r \in Renderings}
@@ -96,7 +104,7 @@ TwoFields == {<<Field(k1, "lower", r1, <<"letter", "digit">>), Neutral("plain_a"
                  k1 \in {"password", "token"}, k2 \in {"admin_pass", "secret"}, r1 \in Renderings, r2 \in Renderings}
 NoKey == {<<Neutral(a), Neutral(b)>> : a \in NeutralToks, b \in NeutralToks}
 
-Messages == Alone \cup Secrets \cup InContext \cup TwoFields \cup NoKey
+Messages == Alone \cup Secrets \cup Glued \cup InContext \cup TwoFields \cup NoKey
 
 \* Known limitation of the pinned code (finding F5, see DESIGN.md): after a dict/JSON
 \* style field, any later quote character in the message makes the "wildcard"
@@ -153,7 +161,8 @@ Leaves == {Leaf(x) : x \in LeafToks}
 Trees(d) ==
   IF d = 0 THEN Leaves
   ELSE LET sub == Trees(d - 1) IN
-       sub \cup {Map(kd, <<<<k1, v1>>>>) : kd \in MapKinds, k1 \in KeyToks, v1 \in sub}
+       sub \cup {Map(kd, <<>>) : kd \in MapKinds}          \* empty mappings, dict and non-dict
+           \cup {Map(kd, <<<<k1, v1>>>>) : kd \in MapKinds, k1 \in KeyToks, v1 \in sub}
            \cup {Map(kd, <<<<k1, v1>>, <<k2, v2>>>>) :
                     kd \in {"dict"}, k1 \in {"k_sanitize", "k_plain"}, k2 \in {"k_nearmiss", "k_int", "k_sanitize2"},
                     v1 \in sub, v2 \in {Leaf("v_secret_str"), Leaf("v_int")} \cup {m \in sub : m.t = "map" /\ Len(m.ents) = 1}}
